@@ -2019,8 +2019,12 @@ fn write_one(run: &C17Run, fx: &mut BackendFixture, what: &str, c: &backend::Com
 
 /// Reads every written commit on one fresh store and compares field by field.
 fn read_back_all(run: &C17Run, fx: &BackendFixture, written: &[Written]) -> Check {
-    let p = fx.kind.p();
-    let fresh = fx.fresh_store();
+    read_back_with(run, fx, written, &fx.fresh_store(), fx.kind.p())
+}
+
+/// Same, through the given reader (`p` prefixes the clause names).
+fn read_back_with(run: &C17Run, fx: &BackendFixture, written: &[Written], fresh: &Arc<Store>, p: &str) -> Check {
+    let _ = fx;
     let mut first_failure: Option<Fail> = None;
     for item in written {
         let r = match fresh.get_commit(&item.id) {
@@ -2187,6 +2191,15 @@ fn run_c17_case(run: &C17Run, fx: &mut BackendFixture, rng: &mut Rng) -> Check {
     let kind = fx.kind;
     let p = kind.p();
     let ctx = run.ctx;
+    // A second store instance opened BEFORE this case's writes and primed by
+    // reading an older commit, so that whatever it caches (e.g. the Git
+    // backend's extras table) predates the writes: a long-running reader.
+    let stale_reader = fx.fresh_store();
+    if let Some(old_id) = fx.seen.keys().next().cloned() {
+        if stale_reader.get_commit(&old_id).is_ok() {
+            ctx.count(&format!("{p}_stale_reader_primed"));
+        }
+    }
     // --- trees, files, symlinks -------------------------------------------
     let n_trees = rng.range(2, 4);
     let mut models: Vec<TreeModel> = vec![];
@@ -2405,7 +2418,9 @@ fn run_c17_case(run: &C17Run, fx: &mut BackendFixture, rng: &mut Rng) -> Check {
             written.push(item);
         }
     }
-    // --- everything is read back on one fresh store, after all writes ------
+    // --- read through the reader that was opened before the writes ...
+    read_back_with(run, fx, &written, &stale_reader, &format!("{p}.stale_reader"))?;
+    // --- ... and everything is read back on one fresh store, after all writes
     read_back_all(run, fx, &written)
 }
 
